@@ -22,6 +22,8 @@ pub trait Elem:
     unsafe fn raw(p: *const Self) -> (u32, u32);
     /// `val += 1000`
     fn bump(&mut self);
+    /// the crate returned this element by value to the caller
+    fn on_return(&self) {}
     /// scribble a decoy over an unoccupied slot
     unsafe fn write_decoy(p: *mut Self, slot: usize);
     /// turn the `Debug` output of a list of elements into the model's notation
@@ -106,19 +108,20 @@ impl Drop for Tracked {
     fn drop(&mut self) {
         let prev = count_off();
         let id = self.id;
+        if silent() {
+            // disposal by the harness itself
+            unset_live(id);
+            count_restore(prev);
+            return;
+        }
         if !is_live(id) {
-            // zombie: already destroyed, a decoy or garbage.  Never crash here.
-            if !silent() {
-                ev_zombie(id, "drop");
-            }
+            // zombie: already destroyed, handed out to the caller, a decoy or garbage.
+            // Never crash here.
+            ev_zombie(id, "drop");
             count_restore(prev);
             return;
         }
         unset_live(id);
-        if silent() {
-            count_restore(prev);
-            return;
-        }
         ev_drop(id);
         if tick(F_DROP) {
             panic!("INJECTED:drop");
@@ -253,6 +256,12 @@ impl Elem for Tracked {
     #[inline]
     fn bump(&mut self) {
         self.val = self.val.wrapping_add(1000);
+    }
+    fn on_return(&self) {
+        if !is_live(self.id) {
+            ev_zombie(self.id, "ret");
+        }
+        set_held(self.id);
     }
     unsafe fn write_decoy(p: *mut Self, slot: usize) {
         std::ptr::write(
